@@ -134,4 +134,43 @@ Definition gl_integrate (f : T -> T) (a b : T) (n : nat) : res T :=
 (** default arguments of the header: x_min = -1.0, x_max = 1.0; sample_points = 30 *)
 Definition gl_rule_default (n : nat) : res (list (list T)) := gl_rule n (nneg Ops one) one.
 Definition gl_integrate_default (f : T -> T) (a b : T) : res T := gl_integrate f a b 30.
+(** ** Re-entrant use: the integrand itself calls the library (as Integrate_2D/3D do), may terminate the process
+    through a guard of a call it makes, or may be a further nested integration.  An integrand is then a function
+    [T -> res T]; the first non-returning evaluation ends the whole call (std::exit inside the integrand). *)
+Fixpoint mapM {A B : Type} (f : A -> res B) (l : list A) : res (list B) :=
+  match l with
+  | [] => Ok []
+  | a :: l' => rbind (f a) (fun b => rbind (mapM f l') (fun bs => Ok (b :: bs)))
+  end.
+
+(** Integrate_Gauss_Legendre(func, roots_and_weights) with such an integrand: function_values[i] = func(rw[i][0])
+    for i = 0, 1, ... in this order (a fresh local vector per call), then the value overload *)
+Definition gl_integrate_funM (f : T -> res T) (rw : list (list T)) : res T :=
+  rbind (mapM (fun r => match r with [] => OOB | x :: _ => f x end) rw) (fun vals => gl_integrate_values vals rw).
+
+(** how one level of a nested integration asks for its integral *)
+Inductive gl_kind : Type :=
+| KInt    (* Integrate_Gauss_Legendre(func, a, b, n) *)
+| KFun    (* rule = Compute_...(n, a, b); Integrate_Gauss_Legendre(func, rule) *)
+| KVal    (* rule = Compute_...(n, a, b); values[i] = func(rule[i][0]); Integrate_Gauss_Legendre(values, rule) *)
+| KDef.   (* Integrate_Gauss_Legendre(func, a, b)  with the default sample_points = 30 *)
+
+Definition gl_order (k : gl_kind) (n : nat) : nat := match k with KDef => 30%nat | _ => n end.
+
+Definition gl_levelM (k : gl_kind) (n : nat) (a b : T) (f : T -> res T) : res T :=
+  match k with
+  | KInt => rbind (gl_rule n a b) (fun rw => gl_integrate_funM f rw)
+  | KFun => rbind (gl_rule n a b) (fun rw => gl_integrate_funM f rw)
+  | KVal => rbind (gl_rule n a b) (fun rw => rbind (mapM (fun r => f (nth0 Ops r 0)) rw) (fun vals => gl_integrate_values vals rw))
+  | KDef => rbind (gl_rule 30 a b) (fun rw => gl_integrate_funM f rw)
+  end.
+
+(** a nested integration: level j integrates over x_j the value of the levels below it; the innermost integrand
+    [core] sees all the variables (x_1, ..., x_d) and may itself be a call of the library (a guard probe) *)
+Definition gl_lev : Type := (gl_kind * nat) * (T * T).
+Fixpoint gl_nest (levs : list gl_lev) (core : list T -> res T) (xs : list T) : res T :=
+  match levs with
+  | [] => core xs
+  | l :: rest => gl_levelM (fst (fst l)) (snd (fst l)) (fst (snd l)) (snd (snd l)) (fun x => gl_nest rest core (xs ++ [x]))
+  end.
 End GL.
